@@ -231,6 +231,14 @@ func (lib *SpecLib) lemmaObs(l *Lemma) []*Ob {
 	if l.Induct == "" {
 		return []*Ob{{Key: key + ".direct", Func: key, Kind: "lemma", Goal: quant(l.Body), Clause: l.Body.String(), Lemmas: l.Uses, Pos: l.File}}
 	}
+	if indSort == "Int" {
+		// induction on a natural number: base n <= 0, step n -> n+1 for n >= 0
+		base := &Ob{Key: key + ".base", Func: key, Kind: "lemma", Decls: []string{"(declare-const ih!n Int)"}, PC: []string{"(<= ih!n 0)"},
+			Goal: quant(sub("ih!n")), Clause: l.Body.String(), Lemmas: l.Uses, Pos: l.File}
+		step := &Ob{Key: key + ".step", Func: key, Kind: "lemma", Decls: []string{"(declare-const ih!n Int)"},
+			PC: []string{"(>= ih!n 0)", quant(sub("ih!n"))}, Goal: quant(sub("(+ ih!n 1)")), Clause: l.Body.String(), Lemmas: l.Uses, Pos: l.File}
+		return []*Ob{base, step}
+	}
 	var nilc, cons, elem string
 	switch indSort {
 	case "Lst":
